@@ -266,6 +266,8 @@ pub struct Env {
     /// full-stack configuration: (kind, detail, message) of every disagreement between what the MAC handed to the
     /// radio and what the real driver programmed into the chip, and of chip-model alerts
     pub stack_alerts: Vec<(&'static str, String, String)>,
+    /// nb restore: (data rate, ADR) the application applies to the fresh device *before* it installs the session
+    pub restore_settings_first: Option<(u8, bool)>,
     /// size of the device's own radio buffer (frames longer than it are outside every statement)
     pub device_buf_cap: usize,
     /// the device was restored from a structurally mutated document (only panic-freedom is judged)
@@ -313,6 +315,7 @@ impl Env {
             sent_down: Vec::new(),
             unspecified_seen: 0,
             stack_alerts: Vec::new(),
+            restore_settings_first: None,
             device_buf_cap: 256,
             mutated_session: false,
             delivered: Vec::new(),
